@@ -209,3 +209,119 @@ def lean_search(chk, props_module, theorem, imports, opens, trials=120, binary=N
     return {"real_code_at_double": real,"key": "theorem:" + theorem, "theorem_statement": " ".join(stmt.split()),
             "failing_input": dict(zip(names, vs)), "evaluated_at": "Rat, with the Gen definitions regenerated from the current tree",
             "falsified_cases": len(idxs)}
+
+
+# ---------------------------------------------------------------------------
+# Lean-side translator validation: the EMITTED LEAN TEXT evaluated at Rat vs the
+# extracted tree evaluated in C++ at exact fractions (validates the emitter)
+
+LEAVES = {"V2": ["x", "y"], "V3": ["x", "y", "z"], "V4": ["x", "y", "z", "w"], "C4": ["r", "g", "b", "a"],
+          "Shear6": ["xy", "xz", "yz", "yx", "zx", "zy"],
+          "M22": ["x%d%d" % (i, j) for i in range(2) for j in range(2)],
+          "M33": ["x%d%d" % (i, j) for i in range(3) for j in range(3)],
+          "M44": ["x%d%d" % (i, j) for i in range(4) for j in range(4)],
+          "Quat": ["r", "v.x", "v.y", "v.z"],
+          "Box2": ["min.x", "min.y", "max.x", "max.y"],
+          "Box3": ["min.x", "min.y", "min.z", "max.x", "max.y", "max.z"],
+          "Box4": ["min.x", "min.y", "min.z", "min.w", "max.x", "max.y", "max.z", "max.w"],
+          "Interval": ["min", "max"], "Line3": ["pos.x", "pos.y", "pos.z", "dir.x", "dir.y", "dir.z"],
+          "Plane3": ["normal.x", "normal.y", "normal.z", "distance"], "Sphere3": ["center.x", "center.y", "center.z", "radius"]}
+ARITY["Box4"] = "⟨⟨%s, %s, %s, %s⟩, ⟨%s, %s, %s, %s⟩⟩"
+EXTRA_ORDER = ["tmin", "tmax", "teps", "tlowest", "sqrt", "sin", "cos", "tan", "acos", "asin", "atan", "exp", "log", "atan2", "pow"]
+STUB_INDEX = {"sqrt": 0, "sin": 1, "cos": 2, "tan": 3, "acos": 5, "asin": 6, "atan": 7, "exp": 8, "log": 9}
+LEAN_TV_PRELUDE = '''
+def stNum : Nat → Rat | 0 => 1 | 1 => 2 | 2 => 3 | 3 => 5 | 4 => 7 | 5 => 11 | 6 => 13 | 7 => 17 | _ => 19
+def st1 (w : Nat) (x : Rat) : Rat := x * (stNum (w % 9) / ((w : Rat) + 2)) + ((w : Rat) + 1) / 3
+def st2 (w : Nat) (x y : Rat) : Rat := x * ((2 + (w : Rat)) / 3) - y * (1 / (2 + (w : Rat))) + (1 + (w : Rat)) / 5
+def fr (r : Rat) : String := s!"{r.num}/{r.den}"
+def frs (l : List Rat) : String := String.join (l.map (fun r => fr r ++ ","))
+def excName : ImathVerif.Exc → String
+  | .domainError => "domainError" | .invalidArgument => "invalidArgument" | .overflowError => "overflowError"
+  | .underflowError => "underflowError" | .outOfRange => "outOfRange" | .logicError => "logicError"
+  | .runtimeError => "runtimeError" | .other => "other"
+'''
+
+
+def _rat(s):
+    n, d = s.split("/")
+    return "((%s : Rat) / %s)" % (n, d) if d != "1" else "(%s : Rat)" % n
+
+
+def lean_tv(chk, binary, tag, index, n=4, idx_deps=()):
+    cmd = [binary, "rattv", str(chk.seed), str(n)]
+    for d in idx_deps:
+        cmd += ["--idx", d]
+    rc, out = lib.sh(cmd, timeout=900)
+    meta = {d["name"]: d for d in index}
+    cases, skipped = [], 0
+    for l in out.split("\n"):
+        if l.startswith("RATSKIP"):
+            skipped += 1
+        m = re.match(r"RATCASE (\S+) IN(.*?) OUT (exc=\S+ vals=\S* ints=\S*)", l)
+        if m and m.group(1) in meta:
+            cases.append((m.group(1), m.group(2).split(), m.group(3)))
+    if not cases:
+        chk.oblige("lean-tv:%s" % tag, "translation-validation", False, out[-500:])
+        chk.fail("lean-tv:" + tag, "lean-tv:" + tag, "Lean-side translator validation produced no cases", {"output": out[-1500:]}, False)
+        return False
+    modules = sorted(set(meta[c[0]]["module"] for c in cases))
+    lines = ["import ImathVerif.Gen.%s" % m for m in modules] + ["open ImathVerif ImathVerif.Gen", LEAN_TV_PRELUDE]
+    for i, (fn, ins, _) in enumerate(cases):
+        d = meta[fn]
+        args, pos = [], 0
+        for e in EXTRA_ORDER:
+            if e in (d.get("extra") or "").split(","):
+                if e == "tmin": args.append("((1 : Rat) / 1024)")
+                elif e == "tmax": args.append("(1048576 : Rat)")
+                elif e == "teps": args.append("((1 : Rat) / 64)")
+                elif e == "tlowest": args.append("(-1048576 : Rat)")
+                elif e == "atan2": args.append("(st2 0)")
+                elif e == "pow": args.append("(st2 1)")
+                else: args.append("(st1 %d)" % STUB_INDEX[e])
+        for p in [x for x in (d.get("params") or "").split(",") if x]:
+            pn, _, sh = p.partition(":")
+            if sh == "-":
+                args.append(_rat(ins[pos])); pos += 1
+            else:
+                k = ARITY[sh].count("%s")
+                args.append("(" + ARITY[sh] % tuple(_rat(x) for x in ins[pos:pos + k]) + " : %s Rat)" % sh); pos += k
+        call = "(%s %s)" % (fn, " ".join(args))
+        outs = [x for x in (d.get("outs") or "").split(",") if x]
+        def item(v, kind):
+            if kind == "-": return ("[%s]" % v, None)
+            if kind == "B": return (None, '(if %s then "1," else "0,")' % v)
+            if kind == "I": return (None, '(toString %s ++ ",")' % v)
+            return ("[" + ", ".join("%s.%s" % (v, f) for f in LEAVES[kind]) + "]", None)
+        def body(v):
+            vals, ints = [], []
+            for k, kind in enumerate(outs):
+                if len(outs) == 1: acc = v
+                else: acc = v + ".2" * k + (".1" if k < len(outs) - 1 else "")
+                a, b = item("(%s)" % acc, kind)
+                if a: vals.append(a)
+                if b: ints.append(b)
+            vs = " ++ ".join(vals) if vals else "([] : List Rat)"
+            is_ = " ++ ".join(ints) if ints else '""'
+            return '"exc=- vals=" ++ frs (%s) ++ " ints=" ++ %s' % (vs, is_)
+        if d.get("throws") == "1":
+            expr = '(match %s with | .ok v => %s | .error e => "exc=" ++ excName e ++ " vals= ints=")' % (call, body("v"))
+        else:
+            expr = "(let v := %s; %s)" % (call, body("v"))
+        lines.append('#eval IO.println ("RATLEAN %d " ++ %s)' % (i, expr))
+    rc, lout = lib.lean_run_file("\n".join(lines) + "\n", timeout=1800, name="leantv")
+    got = dict((int(m.group(1)), m.group(2).strip()) for m in re.finditer(r"RATLEAN (\d+) (.*)", lout))
+    bad = []
+    for i, (fn, ins, exp) in enumerate(cases):
+        if got.get(i) != exp.strip():
+            bad.append((fn, ins, exp, got.get(i)))
+    ok = not bad
+    chk.oblige("lean-tv:%s: emitted Lean text at Rat = extracted trees at exact fractions (%d cases, %d functions)" % (
+        tag, len(cases), len(set(c[0] for c in cases))), "translation-validation", ok,
+        None if ok else [b[0] for b in bad[:5]])
+    chk.count(len(cases), len(cases))
+    chk.extra.setdefault("lean_tv", {})[tag] = {"cases": len(cases), "functions": len(set(c[0] for c in cases)),
+                                                "skipped_external_calls": skipped, "mismatches": len(bad)}
+    for fn, ins, exp, g in bad[:10]:
+        chk.fail("lean-tv:" + tag, "lean-tv:%s" % fn, "emitted Lean definition of %s evaluates differently from the extracted tree (emitter bug)" % fn,
+                 {"function": fn, "inputs": ins, "tree_at_Frac": exp, "lean_at_Rat": g, "lean_output_tail": lout[-600:] if g is None else None}, True)
+    return ok
